@@ -17,6 +17,7 @@ package main
 import (
 	"fmt"
 	"io"
+	"sort"
 	"strings"
 
 	"github.com/openconfig/goyang/pkg/indent"
@@ -47,8 +48,16 @@ func doTypes(w io.Writer, entries []*yang.Entry) {
 		types.AddEntry(e)
 	}
 
+	// Print the types in a fixed order, not in map order.
+	var lines []string
 	for t := range types {
-		printType(w, t, typesVerbose)
+		var b strings.Builder
+		printType(&b, t, typesVerbose)
+		lines = append(lines, b.String())
+	}
+	sort.Strings(lines)
+	for _, l := range lines {
+		io.WriteString(w, l)
 	}
 	if typesDebug {
 		for _, e := range entries {
